@@ -1,6 +1,6 @@
 PROPS["C17"] = {
-    "bounds": "the real NewGrafanaNet shut down right after creation with 1..3 lines dispatched and no worker having run yet (concurrency 1..2); route object built as NewGrafanaNet does (workers real, schema/aggregation posters not started); 1..3 lines over two series, concurrency 1..2, flushMaxNum 1..3, flush timer firing after any line; per-request outcome chosen by the solver from {2xx, 4xx, 5xx, transport error, 5xx with a body that breaks off (one obligation)} with at most 2 failures per history; shard buffer of 1 for the full-buffer obligations; shutdown with 0..4 lines (of one or two series) dispatched and not yet flushed; non-blocking enqueue race: 2..3 concurrent dispatchers into one shard buffer of capacity 1..2 with 0..capacity lines already in it and no receiver, every interleaving with at most 2 (thorough 4) preemptions at channel / atomic / lock operations",
-    "outside": "real HTTP/TLS and timeouts other than the overall http.Client.Timeout (a stalled exchange ends iff the client has a positive Timeout), the msgp/snappy body (CreateMsg and snappy are stubs: the batch identity is tracked instead), concurrency > 2, more than 2 consecutive failures; whether a time.Timer is armed (Stop / Reset are accepted without effect and the harness may fire the flush timer at any point, so a change that forgets to re-arm it is not seen: seeded C17h, open)",
+    "bounds": "the real NewGrafanaNet shut down right after creation with 1..3 lines dispatched and no worker having run yet (concurrency 1..2); route object built as NewGrafanaNet does (workers real, schema/aggregation posters not started); 1..3 lines over two series, concurrency 1..2, flushMaxNum 1..3, flush timer firing after any line and, optionally, once before the first line (an idle interval; the timer model tracks whether a NewTimer timer is armed: it fires once and only again after Reset); per-request outcome chosen by the solver from {2xx, 4xx, 5xx, transport error, 5xx with a body that breaks off (one obligation)} with at most 2 failures per history; shard buffer of 1 for the full-buffer obligations; shutdown with 0..4 lines (of one or two series) dispatched and not yet flushed; non-blocking enqueue race: 2..3 concurrent dispatchers into one shard buffer of capacity 1..2 with 0..capacity lines already in it and no receiver, every interleaving with at most 2 (thorough 4) preemptions at channel / atomic / lock operations",
+    "outside": "real HTTP/TLS and timeouts other than the overall http.Client.Timeout (a stalled exchange ends iff the client has a positive Timeout), the msgp/snappy body (CreateMsg and snappy are stubs: the batch identity is tracked instead), concurrency > 2, more than 2 consecutive failures",
     "assumptions": ["http client, CreateMsg, snappy.Writer, json.Unmarshal, backoff are engine stubs (engine/intrinsics_http.go); the client model reads the request body to its end at every attempt through the body's own Read: the batch an attempt carries is what the body delivers at that moment (an already consumed body delivers nothing and acknowledges nothing)", "failures are transient: after 2 failed attempts requests succeed"],
     "groups": [
         {"pkg": "route", "hdir": "route", "specs": [spec("C17/retry", "VerifC17Retry"), spec("C17/retry/failures<=3", "VerifC17Retry", {"maxfail": "3"}, tier="thorough"), spec("C17/retry/error-response-body-breaks-off", "VerifC17Retry", {"badbody": "1", "maxfail": "1"}), spec("C17/buffer", "VerifC17Buffer"), spec("C17/shutdown", "VerifC17Shutdown")]},
